@@ -24,7 +24,7 @@ def cli(args, timeout=600):
     return p.returncode, p.stdout.decode("utf-8", "replace"), p.stderr.decode("utf-8", "replace")
 
 
-def library_lines(fmt_in, fmt_out, tname, cc, container):
+def library_lines(fmt_in, fmt_out, tname, cc, container, enc=False):
     """what the library produces for the same bytes (colour codes stripped); None if the library raises"""
     import importlib
     mods = {"auto": ("tpmstream.io.auto", "Auto"), "binary": ("tpmstream.io.binary", "Binary"), "hex": ("tpmstream.io.hex", "Hex"),
@@ -35,6 +35,8 @@ def library_lines(fmt_in, fmt_out, tname, cc, container):
     from tpmstream.spec.structures.constants import TPM_CC
     tp = canon.resolve_type(tname)
     kw = dict(tpm_type=tp, buffer=(b for b in container), command_code=TPM_CC(cc) if cc is not None else None, abort_on_error=False)
+    if enc:
+        kw["parameter_encryption"] = True
     text = ""
     try:
         for line in FO.unmarshal(FI.marshal(**kw)):
@@ -155,6 +157,9 @@ def run(ctx, replay_case):
         with open(path, "wb") as f:
             f.write(data)
         tjobs.append((path, data))
+        if i < 4:
+            with open(path + ".hex", "w") as f:
+                f.write(data.hex())
     # files of the listed known findings are replayed on every run
     try:
         import json as _json
@@ -175,8 +180,12 @@ def run(ctx, replay_case):
     tnames = list(L["structures"])      # the names the command line accepts as types (tpmstream.spec.all_types)
     parents = [n for n in ("TPM2B_DIGEST", "TPM_HANDLE", "TPM_ALG_ID", "TPMS_SCHEME_HASH", "UINT8", "UINT16", "UINT32", "TPM_ST",
                            "TPMS_EMPTY", "TPM2B_PUBLIC", "TPMT_PUBLIC") if n in tnames]
-    ex_names = rnd.sample([n for n, _ in L["cc"]], 3 if ctx.tier == "quick" else 20) \
+    allcc = [n for n, _ in L["cc"]]
+    ex_names = (rnd.sample(allcc, 9) if ctx.tier == "quick" else allcc) \
         + (rnd.sample(parents, 4) + rnd.sample(tnames, 3) if ctx.tier == "quick" else parents + rnd.sample(tnames, 20))
+    # command codes that occur in the bundled captures (scanned with dpkt, not with the code under test): `example X` must
+    # print at least one example for them
+    in_corpus = {int.from_bytes(c[6:10], "big") for _, c, _ in core.corpus_messages() if len(c) >= 10}
 
     def do(job):
         return cli(job[1])
@@ -184,6 +193,7 @@ def run(ctx, replay_case):
         results = list(ex.map(do, jobs))
         gres = list(ex.map(lambda gj: cli(gj[0]), gjobs))
         tres = list(ex.map(lambda tj: cli(["type", "--in", "binary", tj[0]]), tjobs))
+        hres = list(ex.map(lambda tj: cli(["type", "--in", "hex", tj[0] + ".hex"]), tjobs[:4]))
         eres = list(ex.map(lambda n: cli(["example", n], timeout=1200), ex_names))
     stats = collections.Counter()
 
@@ -207,6 +217,9 @@ def run(ctx, replay_case):
             if rc == 0 or "Did you mean" not in err and "requires" not in err:
                 viol("cli:refuse", f"`tpmstream {' '.join(args[:-1])} <file>` was not refused with a non-zero status and a suggestion (status {rc})",
                      {"argv": args, "status": rc, "stderr": err[:300]})
+            elif out.strip():
+                viol("cli:refuse", f"`tpmstream {' '.join(args[:-1])} <file>` is refused but prints a decode all the same",
+                     {"argv": args, "status": rc, "stdout": out[:300]})
             if plan is not None and plan != "L refused":
                 ctx.violations.append({"kind": "correspondence", "what": "CLI dispatch model disagrees with the command line",
                                        "replay": {"argv": args, "model": plan, "status": rc}})
@@ -296,6 +309,8 @@ def run(ctx, replay_case):
             viol("cli:example", f"`example {name}` exits with status {rc}", {"argv": ["example", name], "stderr": err[-300:]})
             continue
         blocks = [b for b in out.split("\n\n") if b.strip()]
+        if not blocks and dict(L["cc"]).get(name) in in_corpus:
+            viol("cli:example", f"`example {name}` prints nothing although the bundled captures contain that command", {"argv": ["example", name]})
         budget = 5 if ctx.tier == "quick" else 50
         for blk in blocks:
             head = blk.split("\n")[0]
@@ -322,9 +337,18 @@ def run(ctx, replay_case):
                 continue        # the headers of all blocks are checked, the re-decode of the first ones
             lines, exc = library_lines("binary", "pretty", args[0], args[1], data)
             shown = "\n".join(blk.split("\n")[1:])
+            if args[0] == "Response" and (exc is not None or ANSI.sub("", shown).rstrip() != lines.rstrip()):
+                # a response whose sessions request parameter encryption is shown as decoded under that flag (the examples
+                # come from streams, where the flag follows from the command's sessions)
+                lines, exc = library_lines("binary", "pretty", args[0], args[1], data, enc=True)
             if exc is not None or ANSI.sub("", shown).rstrip() != lines.rstrip():
                 viol("cli:example", f"`example {name}`: the printed example does not re-decode to what is shown", {"hex": hx, "type": tname})
                 break
+    for (path, data), (rc, out, err), (rcb, outb, errb) in zip(tjobs[:4], hres, tres[:4]):
+        stats["type_hex"] += 1
+        if (rc, out) != (rcb, outb):
+            viol("cli:type:hex", "`type --in hex` lists something else than `type --in binary` for the same bytes",
+                 {"file_hex": data.hex(), "hex_status": rc, "binary_status": rcb, "hex": out[:200], "binary": outb[:200]})
     subprocess.run(["rm", "-rf", tmp])
     ctx.stats.update({
         "evaluations": len(jobs) + len(gjobs) + len(tjobs) + len(ex_names), "distinct_nontrivial": len({tuple(j[1][:-1]) + (j[2][4] if j[2] else b"",) for j in jobs}),
